@@ -337,7 +337,7 @@ class Ctx:
     # ---- violations -------------------------------------------------------
     def _match_known(self, component, kind):
         for f in self.known:
-            if f["component"] == component and f["kind"] == kind:
+            if (f["component"] == component or (f.get("component_prefix") and component.startswith(f["component_prefix"]))) and f["kind"] == kind:
                 return f
         return None
 
